@@ -21,6 +21,7 @@ import (
 
 	apifu "github.com/ccbrown/api-fu"
 	"github.com/ccbrown/api-fu/graphql"
+	"github.com/ccbrown/api-fu/graphql/parser"
 
 	"verifharness/hx"
 )
@@ -28,7 +29,7 @@ import (
 type apiWorld struct {
 	mu       sync.Mutex
 	srv      *httptest.Server
-	ws       *websocket.Conn
+	ws       map[string]*websocket.Conn // one connection per subprotocol, reused for every request on this API
 	wsID     int
 	api      *apifu.API
 	called   bool
@@ -39,8 +40,10 @@ type apiWorld struct {
 }
 
 func (w *apiWorld) close() {
-	if w.ws != nil {
-		w.ws.Close()
+	for _, c := range w.ws {
+		if c != nil {
+			c.Close()
+		}
 	}
 	if w.srv != nil {
 		w.api.CloseHijackedConnections()
@@ -129,7 +132,9 @@ func newAPIWorld(ac APIConfig) *apiWorld {
 			EdgeCursor: func(edge interface{}) interface{} { return edge.(int) },
 			EdgeFields: map[string]*graphql.FieldDefinition{
 				"node": {Type: graphql.IntType, Cost: graphql.FieldResolverCost(1), Resolve: func(ctx graphql.FieldContext) (interface{}, error) {
+					w.mu.Lock()
 					w.resolved++
+					w.mu.Unlock()
 					return ctx.Object, nil
 				}},
 			},
@@ -198,8 +203,10 @@ func (w *apiWorld) serve(c Case) (status int, body string, panicked string) {
 	return rec.Code, rec.Body.String(), panicked
 }
 
-// serveWS sends one `start` over a graphql-ws connection (graphqlws.go:52-73) and waits for its `complete`.
-func (w *apiWorld) serveWS(c Case) (errText string) {
+// serveWS sends one operation over a WebSocket connection of the given subprotocol — "graphql-ws"
+// (`start`) or "graphql-transport-ws" (`subscribe`) — and waits for its `complete`. The connection is
+// kept: later requests on this API are further operations on the same connection.
+func (w *apiWorld) serveWS(c Case, proto string) (errText string) {
 	w.mu.Lock()
 	w.called, w.cost, w.resolved = false, 0, 0
 	w.mu.Unlock()
@@ -207,12 +214,21 @@ func (w *apiWorld) serveWS(c Case) (errText string) {
 		w.srv = httptest.NewServer(http.HandlerFunc(w.api.ServeGraphQLWS))
 	}
 	if w.ws == nil {
-		d := websocket.Dialer{Subprotocols: []string{"graphql-ws"}, HandshakeTimeout: 5 * time.Second}
-		conn, _, err := d.Dial("ws"+strings.TrimPrefix(w.srv.URL, "http"), nil)
+		w.ws = map[string]*websocket.Conn{}
+	}
+	conn := w.ws[proto]
+	if conn == nil {
+		d := websocket.Dialer{Subprotocols: []string{proto}, HandshakeTimeout: 5 * time.Second}
+		var err error
+		conn, _, err = d.Dial("ws"+strings.TrimPrefix(w.srv.URL, "http"), nil)
 		if err != nil {
 			return "dial: " + err.Error()
 		}
-		w.ws = conn
+		if conn.Subprotocol() != proto {
+			conn.Close()
+			return "server chose subprotocol " + conn.Subprotocol()
+		}
+		w.ws[proto] = conn
 		if err := conn.WriteJSON(map[string]interface{}{"type": "connection_init"}); err != nil {
 			return "init: " + err.Error()
 		}
@@ -226,19 +242,26 @@ func (w *apiWorld) serveWS(c Case) (errText string) {
 	if len(c.Vars) > 0 {
 		payload["variables"] = jsonVars(c.Vars)
 	}
-	if err := w.ws.WriteJSON(map[string]interface{}{"type": "start", "id": id, "payload": payload}); err != nil {
-		w.ws = nil
-		return "start: " + err.Error()
+	startType := "start"
+	if proto == "graphql-transport-ws" {
+		startType = "subscribe"
 	}
-	w.ws.SetReadDeadline(time.Now().Add(10 * time.Second))
+	drop := func() {
+		conn.Close()
+		w.ws[proto] = nil
+	}
+	if err := conn.WriteJSON(map[string]interface{}{"type": startType, "id": id, "payload": payload}); err != nil {
+		drop()
+		return startType + ": " + err.Error()
+	}
+	conn.SetReadDeadline(time.Now().Add(10 * time.Second))
 	for {
 		var msg struct {
 			Type string `json:"type"`
 			Id   string `json:"id"`
 		}
-		if err := w.ws.ReadJSON(&msg); err != nil {
-			w.ws.Close()
-			w.ws = nil
+		if err := conn.ReadJSON(&msg); err != nil {
+			drop()
 			return "read: " + err.Error()
 		}
 		if msg.Type == "complete" && msg.Id == id {
@@ -247,12 +270,18 @@ func (w *apiWorld) serveWS(c Case) (errText string) {
 	}
 }
 
+var wsProtocols = map[string]string{"WS": "graphql-ws", "WS2": "graphql-transport-ws"}
+
 // wsOne: the same request over graphql-ws reaches Config.Execute with the same RequestInfo.Cost.
 func (h *harness) wsOne(c Case, verbose bool) *failure {
 	w := h.apiFor(c.Default)
 	w.execute = false
-	if e := w.serveWS(c); e != "" {
-		return &failure{"correspondence", "graphql-ws exchange failed: " + e}
+	proto := wsProtocols[c.Via]
+	if proto == "" {
+		proto = "graphql-ws"
+	}
+	if e := w.serveWS(c, proto); e != "" {
+		return &failure{"correspondence", proto + " exchange failed: " + e}
 	}
 	w.mu.Lock()
 	wsCalled, wsCost := w.called, w.cost
@@ -276,7 +305,7 @@ func (h *harness) wsPath(n int) {
 		r := h.run.Rand.Fork()
 		o := genOpts{MaxDepth: r.Range(2, 4), Budget: r.Range(3, 15), NoMutation: true}
 		gd, vars := genDoc(r, o)
-		c := Case{Kind: "ws", Query: gd.Render(), Vars: vars, Default: hx.Pick(r, defaults[:9]), Max: -1}
+		c := Case{Kind: "ws", Query: gd.Render(), Vars: vars, Default: hx.Pick(r, defaults[:9]), Max: -1, Via: hx.Pick(r, []string{"WS", "WS2"})}
 		names := []string{""}
 		for _, op := range gd.Ops {
 			if op.Name != "" {
@@ -286,7 +315,7 @@ func (h *harness) wsPath(n int) {
 		c.OpName = hx.Pick(r, names)
 		f := h.wsOne(c, false)
 		h.run.Case("ws|"+c.Query+"|"+c.OpName+fmt.Sprint(c.Vars, c.Default), true)
-		h.run.Count("ws-path")
+		h.run.Count("ws-path:" + wsProtocols[c.Via])
 		h.run.Oblige("RequestInfo.Cost over graphql-ws (graphqlws.go) = over HTTP = reference", "correspondence", 1, f == nil, fmtFail(f))
 		if f != nil {
 			h.report(f, c)
@@ -411,10 +440,32 @@ func (h *harness) connOne(c Case, verbose bool) *failure {
 	w := h.apiFor(c.Default)
 	w.execute = true
 	w.total = c.Total
-	_, body, panicked := w.serve(c)
+	body, panicked := "{}", ""
+	if proto := wsProtocols[c.Via]; proto != "" {
+		if e := w.serveWS(c, proto); e != "" {
+			w.execute = false
+			return &failure{"correspondence", proto + " exchange failed: " + e}
+		}
+	} else {
+		_, body, panicked = w.serve(c)
+	}
 	w.execute = false
 	if panicked != "" {
 		return &failure{"crash", "ServeGraphQL panicked: " + panicked}
+	}
+	w.mu.Lock()
+	resolvedNow := w.resolved
+	w.mu.Unlock()
+	// the operation the cost was computed for must be the operation that is executed: when the
+	// requested name chooses no operation the rule charges 0 — and then nothing may be resolved
+	if doc, perrs := parser.ParseDocument([]byte(c.Query)); len(perrs) == 0 && chooseOperation(doc, c.OpName) == nil {
+		h.run.Count("conn:no-operation-chosen(" + map[string]string{"": "POST", "WS": "graphql-ws", "WS2": "graphql-transport-ws"}[c.Via] + ")")
+		if resolvedNow > 0 {
+			return &failure{"property", fmt.Sprintf("operation name %q chooses no operation of the document (RequestInfo.Cost %d, Execute called=%v), yet %d edges were resolved: %s", c.OpName, w.cost, w.called, resolvedNow, c.Query)}
+		}
+		cc := c
+		cc.Kind = "execute"
+		return h.executeOne(cc, false)
 	}
 	var resp struct {
 		Data struct {
@@ -462,7 +513,7 @@ func (h *harness) connOne(c Case, verbose bool) *failure {
 
 // argSpellings: how an Int argument of a connection can be written. Each returns the argument text
 // ("" = omitted), the variable definition it needs ("" = none) and the variable's value (nil = none given).
-var argSpellings = []string{"absent", "literal", "variable", "null-literal", "null-variable", "undefined-variable"}
+var argSpellings = []string{"absent", "literal", "variable", "null-literal", "null-variable", "undefined-variable", "null-variable-with-default"}
 
 func spellArg(arg, spelling string, k int) (argText, varDef string, val *VarVal) {
 	switch spelling {
@@ -476,6 +527,8 @@ func spellArg(arg, spelling string, k int) (argText, varDef string, val *VarVal)
 		return fmt.Sprintf("%s: $%s", arg, arg), "$" + arg + ": Int", &VarVal{"null", ""}
 	case "undefined-variable":
 		return fmt.Sprintf("%s: $%s", arg, arg), "$" + arg + ": Int", nil
+	case "null-variable-with-default": // an explicit null is null: the variable's default only applies when it is left out
+		return fmt.Sprintf("%s: $%s", arg, arg), fmt.Sprintf("$%s: Int = %d", arg, k+13), &VarVal{"null", ""}
 	}
 	return "", "", nil
 }
@@ -551,6 +604,21 @@ func (h *harness) connections() {
 			for _, ls := range argSpellings {
 				cases = append(cases, connCaseVia("things", via, hx.Pick(r, []int{0, 3, 25}), fs, hx.Pick(r, []int{0, 1, 2, 5, 20}), ls, hx.Pick(r, []int{0, 1, 2, 7, 20})))
 			}
+		}
+	}
+	// an operation name that chooses no operation: nothing is charged, so nothing may be executed —
+	// over HTTP and over both WebSocket protocols (several operations on the same connection)
+	for _, via := range []string{"", "WS", "WS2", "WS", "WS2"} {
+		for _, x := range []struct{ query, op string }{
+			{`{ t: things(first: 3) { edges { node cursor } } }`, "Q"},                                       // anonymous, named request
+			{`query P { t: things(first: 3) { edges { node cursor } } }`, "Q"},                               // other name
+			{`query P($n: Int = 4) { t: thingsF(first: $n) { edges { node } } }`, "p"},                        // case differs
+			{`query A { t: things(first: 2) { edges { node } } } query B { t: things(last: 5) { edges { node } } }`, ""}, // ambiguous
+			{`query A { t: things(first: 2) { edges { node } } } query B { t: things(last: 5) { edges { node } } }`, "C"},
+			{`query A { t: things(first: 2) { edges { node } } } query B { t: things(last: 5) { edges { node } } }`, "B"}, // (chosen: control)
+		} {
+			c := Case{Kind: "conn", Total: 9, Query: x.query, OpName: x.op, Default: DefaultCost{R: 1}, Max: -1, Via: via, Note: "operation-name " + x.op}
+			cases = append(cases, c)
 		}
 	}
 	// page sizes 0..9 over small collections, forwards and backwards
